@@ -25,7 +25,7 @@ from ..facts import (AnalysisBroken, walk, strip_casts, expr_str, is_null_const,
                      callee_name, indirect_field)
 from ..dataflow import node_effects
 from .common import (all_functions, assignments, is_ref, is_mem, cmp_parts, guarded_by, node_containing, find_function,
-                     region_without_edges)
+                     region_without_edges, field_cache, expand_cached)
 
 NULL = ('null',)
 NN = ('nn',)
@@ -1303,6 +1303,7 @@ def own5(units, R):
         if not rel:
             continue
         cfg = fn.cfg()
+        tcache = field_cache(u, fn, 'type')
         for (c, e, deep) in rel:
             n += 1
             X = expr_str(strip_casts(e['b']))
@@ -1310,7 +1311,7 @@ def own5(units, R):
             node = node_containing(cfg, c)
 
             def is_flag_test(x):
-                x = strip_casts(x)
+                x = strip_casts(expand_cached(x, tcache))       # int type = item->type; ... if (!(type & cJSON_IsReference))
                 if x.get('k') == 'bin' and x['op'] == '&':
                     for (a, b) in ((x['l'], x['r']), (x['r'], x['l'])):
                         a0 = strip_casts(a)
@@ -1328,6 +1329,8 @@ def own5(units, R):
                 p = cmp_parts(x)
                 if p and is_flag_test(p[0]) and p[2] == 0 and p[1] in ('==', '!='):
                     return (p[1] == '==') == (l[0] == 'T')
+                x = strip_casts(expand_cached(x, tcache))
+                p = cmp_parts(x)
                 # (X->type & M) == K with the ownership bit inside M and clear in K: on the equal edge the bit is clear
                 bit = {'cJSON_IsReference': 256, 'cJSON_StringIsConst': 512}[flag]
                 if p and p[1] in ('==', '!=') and p[2] is not None and (p[2] & bit) == 0:
@@ -1607,8 +1610,14 @@ def own8(units, R):
                 p2 = par.get(x['id'])
                 while p2 is not None and p2.get('k') == 'cast':
                     p2 = par.get(p2['id'])
+                tcache8 = field_cache(u, fn, 'type')
+
+                def is_type_of(y, Y=Y):
+                    if y.get('k') == 'mem' and expr_str(y) == '%s->type' % Y:
+                        return True
+                    return y.get('k') == 'ref' and y.get('d') in tcache8 and expr_str(tcache8[y['d']]) == '%s->type' % Y
                 if p2 is not None and p2.get('k') == 'cond' and any(flag in (y.get('m') or []) for y in walk(p2['c'])) and \
-                        any(expr_str(y) == '%s->type' % Y for y in walk(p2['c'])):
+                        any(is_type_of(y) for y in walk(p2['c'])):
                     tested = True
                 # (b) the type of X is assigned from the type of Y
                 carried = False
@@ -1617,7 +1626,7 @@ def own8(units, R):
                     if lb.get('k') == 'mem' and lb['f'] == 'type' and expr_str(strip_casts(lb['b'])) == X:
                         bit = 256 if flag == 'cJSON_IsReference' else 512
                         for y in walk(b['r']):
-                            if expr_str(y) != '%s->type' % Y or y.get('k') != 'mem':
+                            if not is_type_of(y):
                                 continue
                             # the bit survives unless Y->type is ANDed with a mask that clears it on the way up
                             q = par.get(y['id'])
@@ -1676,9 +1685,11 @@ def del1(units, R):
                             return FLAGS[m]
         return None
 
+    tcache = field_cache(u, fn, 'type')
+
     def truth(e, env):
         """True/False/None for an atomic condition under the abstract node env"""
-        e = strip_casts(e)
+        e = strip_casts(expand_cached(e, tcache))         # the type word read once into a local at the top of the iteration
         f = flag_of(e)
         if f:
             return env[f]
